@@ -61,6 +61,7 @@ impl Check for C05 {
                 c05_case(ctx, &p, b"Encrypt0", &[]);
                 c05_case(ctx, &p, b"", &[]);
                 unencodable_header_case(ctx, "Enc_structure", &a1, &[]);
+                both_ivs_case(ctx, "Enc_structure", &a1, &[]);
             }
         }
     }
